@@ -296,6 +296,35 @@ def bounded(chk):
                     break
             if fails:
                 break
+    # embedding contexts reported by seed authors: one class per shape (some are recorded known findings)
+    fails2 = []
+    shapes = [
+        ("caption_pipe", "{|\n|+ a<nowiki>|</nowiki>b\n|-\n| x\n|}", " a|b"),
+        ("caption_newline", "{|\n|+ a<nowiki>\nq</nowiki>b\n|-\n| x\n|}", "q"),
+        ("unknown_tag_attribute", "<blah <nowiki>''x''</nowiki>>", "''x''"),
+        ("tag_function_argument", "{{#tag:source|<nowiki>{{x}}</nowiki>}}", "{{x}}"),
+        ("foreign_closing_tag_in_syntaxhighlight", "<syntaxhighlight>a</source>''b''</syntaxhighlight>", "a</source>''b''"),
+        ("include_control_inside_nowiki", "<nowiki>a<includeonly>i</includeonly>b</nowiki>", "a<includeonly>i</includeonly>b"),
+        ("string_function_on_nowiki", "{{lc:<nowiki>ABC</nowiki>}}", "ABC"),
+        ("image_option", "[[Image:x.png|<nowiki>thumb</nowiki>]]", None),
+    ]
+    for name, text, want in shapes:
+        n += 1
+        try:
+            tree = docs.parse(text)
+            got = collect_text(tree)
+        except Exception as e:  # noqa: BLE001
+            fails2.append({"detail": f"{name}: {text!r} raised {type(e).__name__}", "witness": {"wikitext": text}, "class": f"context:{name}"})
+            continue
+        if want is None:
+            bad = any(getattr(c, "thumb", False) for c in tree.allchildren())
+        else:
+            bad = want not in got or "\x7f" in got
+        if bad:
+            fails2.append({"detail": f"{name}: {text!r}: body not verbatim / interpreted ({got[:80]!r})", "witness": {"wikitext": text}, "class": f"context:{name}"})
+    chk.bounded_result("opaque_bodies_in_reported_contexts", len(shapes), len(shapes), True,
+                       "nowiki / source bodies in 8 further embedding contexts (table caption, attribute of an unknown tag, #tag argument, syntaxhighlight with a foreign closing tag, include-control tags inside nowiki, argument of a string function, image option)",
+                       fails2)
     chk.bounded_result("opaque_bodies_in_contexts", n, n, True,
                        f"{len(bodies)} bodies (markup lexemes and pairs) x 5 opaque tags x 5 embedding contexts through parse_string with a template-bearing wikidb; contract: body verbatim (entity-decoded for nowiki/pre) in a Text/Math/Timeline leaf",
                        fails[:1])
